@@ -2,8 +2,10 @@ package main
 
 import (
 	"zvh/engines/seq"
+	"zvh/engines/store"
 )
 
 func init() {
 	engines["seq"] = seq.Engine{}
+	engines["store"] = store.Engine{}
 }
